@@ -235,9 +235,10 @@ def main(tier, seed):
                     ok = kind == "exc" or val is False
                 if ok:
                     st.ob("refuted", key=okey)
-                    st.violation("tabling-key:variants", "DefineCache: goal shapes %s / %s with variable selectors %s: the goals are %s but the cache "
-                                 "treats them otherwise (shape codes 0 V, 1 f(V), 2 a, 3 g(V,V), 4 f(a), 5 b)" % (
-                                     h.meta["shapes1"], h.meta["shapes2"], call[1:], "variants or not"),
+                    st.violation("tabling-key:variants", "DefineCache: goal shapes %s / %s with variable selectors %s: the cache (completed or "
+                                 "active table) finds the second goal although it is not a variant of the first, or misses a variant "
+                                 "(shape codes 0 V, 1 f(V), 2 a, 3 g(V,V), 4 f(a), 5 b; selector k = variable -(k+1))" % (
+                                     h.meta["shapes1"], h.meta["shapes2"], call[1:]),
                                  {"kind": "xh", "harness": h.source, "name": h.name, "args": list(call[1]), "kwargs": call[2]})
                 else:
                     st.ob("inconclusive", key=okey, note="counterexample did not replay: %s" % detail[:100])
